@@ -26,17 +26,17 @@ const uriBase = "http://opcfoundation.org/UA/SecurityPolicy#"
 type Policy struct {
 	URI string
 	// symmetric
-	SymSigLen   int // HMAC output
-	SymSigKey   int // derived signing key length
-	SymEncKey   int // derived encryption key length
-	SymBlock    int // AES block size
-	sha256      bool // HMAC / P_hash function: SHA-256 (else SHA-1)
-	NonceLen    int
+	SymSigLen int  // HMAC output
+	SymSigKey int  // derived signing key length
+	SymEncKey int  // derived encryption key length
+	SymBlock  int  // AES block size
+	sha256    bool // HMAC / P_hash function: SHA-256 (else SHA-1)
+	NonceLen  int
 	// asymmetric
-	asymSig     string // "pkcs15-sha1", "pkcs15-sha256", "pss-sha256"
-	asymEnc     string // "pkcs15", "oaep-sha1", "oaep-sha256"
-	MinKeyBits  int
-	MaxKeyBits  int
+	asymSig    string // "pkcs15-sha1", "pkcs15-sha256", "pss-sha256"
+	asymEnc    string // "pkcs15", "oaep-sha1", "oaep-sha256"
+	MinKeyBits int
+	MaxKeyBits int
 }
 
 var Policies = map[string]*Policy{
@@ -347,10 +347,14 @@ func (p *Policy) OpenAsym(frame []byte, receiverKey *rsa.PrivateKey, senderPub *
 }
 
 // SignAsym signs data with the policy's asymmetric signature algorithm.
-func (p *Policy) SignAsym(priv *rsa.PrivateKey, data []byte) ([]byte, error) { return p.asymSign(priv, data) }
+func (p *Policy) SignAsym(priv *rsa.PrivateKey, data []byte) ([]byte, error) {
+	return p.asymSign(priv, data)
+}
 
 // VerifyAsym verifies an asymmetric signature.
-func (p *Policy) VerifyAsym(pub *rsa.PublicKey, data, sig []byte) error { return p.asymVerify(pub, data, sig) }
+func (p *Policy) VerifyAsym(pub *rsa.PublicKey, data, sig []byte) error {
+	return p.asymVerify(pub, data, sig)
+}
 
 // AsymSignatureURI is the algorithm URI carried in SignatureData.
 func (p *Policy) AsymSignatureURI() string {
